@@ -157,7 +157,10 @@ ssize_t send(int fd, const void *buf, size_t len, int flags)
   if(S.hooks.send) return S.hooks.send(fd, buf, len, flags);
   Ev e = pop(3);
   log(3, {fd, static_cast<long long>(len), flags, arg(e, 0)});
-  if(S.async_fds.count(fd)) {
+  if(S.tls_fds.count(fd)) {
+    // only the TLS engine writes to this connection (the scripted engine's output is all 'E'): anything else is cleartext
+    for(size_t i = 0; i < len; ++i) if(static_cast<char const *>(buf)[i] != 'E') { anomaly(30, fd, static_cast<long long>(i)); break; }
+  } else if(S.async_fds.count(fd)) {
     // asynchronous socket: the front buffer of the expected queue, from its unsent offset, all of it
     auto &q = S.aq[fd];
     if(q.empty()) anomaly(5, fd, static_cast<long long>(len));
